@@ -1177,14 +1177,14 @@ def gen_case(rng, sg, prof):
     used_dc = 0
     for i in range(nargs):
         r = rng.random()
-        if r < prof.get("p_nested_dc", 0.12):
+        if r < prof.get("p_nested_dc", 0.08):
             t = gen_nested_dataclass_hint(rng, prof, sg)
             name = "h%d" % i
             a = {"name": name, "type": t}
             args.append(a)
             obj[name] = gen_value(t, rng, sg, prof)
             continue
-        if r < prof.get("p_nested_dc", 0.12) + 0.15:
+        if r < prof.get("p_nested_dc", 0.08) + 0.15:
             t = gen_dataclass_type(rng, prof, used_dc, sg)
             used_dc += 1
             # dataclass fields get defaults half of the time
